@@ -1,7 +1,160 @@
-(* Properties/C12.v — placeholder until the theorems over Model/Core.v are assembled. *)
-From Coq Require Import ZArith List.
+(* Properties/C12.v — relations borrowed through expand lexicons are mapped by ILI as documented (model: Core.Wordnet_init,
+   Core.Synset_iter_relations / _iter_expanded_relations).
+   Statements only: every theorem is closed by `exact` of a lemma proved under Proofs/, followed by
+   Print Assumptions.  (Statement texts were printed by Coq from the proved lemmas by harness/mkprops.py and are
+   fixed from then on.) *)
+From Coq Require Import String.
+From Coq Require Import ZArith List Bool.
 Import ListNotations.
-Require Import WnV.Base.Sx WnV.Model.Core.
-Example C12_model_present : run_core (L []) = run_core (L []).
-Proof. reflexivity. Qed.
-Print Assumptions C12_model_present.
+Require Import WnV.Base.Sx WnV.Model.Spec WnV.Model.Tables WnV.Model.Query WnV.Model.Core.
+Require Import WnV.Proofs.CoreLemmas WnV.Proofs.QueryFacts WnV.Proofs.ScopeProofs WnV.Proofs.SearchProofs
+        WnV.Proofs.NavProofs WnV.Proofs.RelGeneric WnV.Proofs.RelProofs WnV.Proofs.RelClosureProofs
+        WnV.Proofs.ExpandProofs WnV.Proofs.FrameProofs WnV.Proofs.CoreNonvacuity.
+Local Open Scope Z_scope.
+
+(* ---- X3: which lexicons become expand lexicons (explicit argument, or the resolved dependencies of the selection by default; a warning when a dependency is not installed) *)
+Theorem C12_Wordnet_init_spec :
+  forall (d : db) (lexicon lang expand : option str) (nz : bool) (nt : list (str * str))
+           (lem : option (list (str * list (option str * list str)))) (saf : bool)
+           (w : Wordnet),
+         Wordnet_init d lexicon lang expand nz nt lem saf = Ok w ->
+         exists lexs expanded : list lexicon_row,
+           find_lexicons d match lexicon with
+                           | Some (c :: s) => c :: s
+                           | _ => s_star
+                           end lang = Ok lexs /\
+           wn_lexicon_ids w = map lex_rowid lexs /\
+           wn_default_mode w = negb (truthy lexicon) && negb (truthy lang) /\
+           (if nonempty (effective_expand d lexicon lang expand lexs)
+            then find_lexicons d (effective_expand d lexicon lang expand lexs) None
+            else Ok []) = Ok expanded /\
+           wn_expanded_ids w = map lex_rowid expanded /\
+           wn_warned w =
+           match expand with
+           | Some _ => false
+           | None =>
+               if negb (truthy lexicon) && negb (truthy lang)
+               then false
+               else
+                nonempty
+                  (join_space
+                     (map dep_spec
+                        (filter (fun dep : str * str * option Z => negb (dep_installed dep))
+                           (selected_deps d lexs))))
+           end /\
+           wn_normalizer w = nz /\
+           wn_norm_table w = nt /\ wn_lemmatizer w = lem /\ wn_search_all_forms w = saf.
+Proof. exact (@Wordnet_init_spec). Qed.
+Print Assumptions C12_Wordnet_init_spec.
+
+Theorem C12_Wordnet_init_warned :
+  forall (d : db) (lexicon lang : option str) (nz : bool) (nt : list (str * str))
+           (lem : option (list (str * list (option str * list str)))) (saf : bool)
+           (w : Wordnet),
+         Wordnet_init d lexicon lang None nz nt lem saf = Ok w ->
+         negb (truthy lexicon) && negb (truthy lang) = false ->
+         wn_warned w = true <->
+         (exists (lex : lexicon_row) (dep : lexicon_dependency_row),
+            In lex (t_lexicons d) /\
+            In (lex_rowid lex) (wn_lexicon_ids w) /\
+            In dep (t_lexicon_dependencies d) /\
+            ld_dependent_rowid dep = lex_rowid lex /\ ld_provider_rowid dep = None).
+Proof. exact (@Wordnet_init_warned). Qed.
+Print Assumptions C12_Wordnet_init_warned.
+
+Theorem C12_Wordnet_init_no_expand :
+  forall (d : db) (lexicon lang : option str) (nz : bool) (nt : list (str * str))
+           (lem : option (list (str * list (option str * list str)))) (saf : bool)
+           (w : Wordnet),
+         Wordnet_init d lexicon lang (Some []) nz nt lem saf = Ok w ->
+         wn_expanded_ids w = [] /\ wn_warned w = false.
+Proof. exact (@Wordnet_init_no_expand). Qed.
+Print Assumptions C12_Wordnet_init_no_expand.
+
+(* ---- X2: without expand lexicons, or for a synset without ILI, only the local relations *)
+Theorem C12_Synset_iter_relations_no_expand :
+  forall (d : db) (y : Synset) (args : list str),
+         wn_expanded_ids (ss_wordnet y) = [] ->
+         Synset_iter_relations d y args =
+         (if negb (ss__id y =? NON_ROWID) then Synset_iter_local_relations d y args else Ok []).
+Proof. exact (@Synset_iter_relations_no_expand). Qed.
+Print Assumptions C12_Synset_iter_relations_no_expand.
+
+Theorem C12_Synset_iter_relations_no_ili :
+  forall (d : db) (y : Synset) (args : list str),
+         ss_ili y = None ->
+         Synset_iter_relations d y args =
+         (if negb (ss__id y =? NON_ROWID) then Synset_iter_local_relations d y args else Ok []).
+Proof. exact (@Synset_iter_relations_no_ili). Qed.
+Print Assumptions C12_Synset_iter_relations_no_ili.
+
+(* ---- X1: relations = local relations ++ expanded relations; an expanded relation exists exactly when a synset of an expand lexicon with the same ILI has that relation, and its target is mapped back through the target ILI (the local synsets with that ILI, or one inferred placeholder) *)
+Theorem C12_Synset_iter_relations_split :
+  forall (d : db) (y : Synset) (args : list str),
+         Synset_iter_relations d y args =
+         (do loc <-
+          (if negb (ss__id y =? NON_ROWID) then Synset_iter_local_relations d y args else Ok []);
+          do exp <-
+          match ss_ili y with
+          | Some _ =>
+              if nonempty (wn_expanded_ids (ss_wordnet y))
+              then Synset_iter_expanded_relations d y args
+              else Ok []
+          | None => Ok []
+          end; Ok (loc ++ exp)).
+Proof. exact (@Synset_iter_relations_split). Qed.
+Print Assumptions C12_Synset_iter_relations_split.
+
+Theorem C12_Synset_iter_expanded_relations_iff :
+  forall d : db,
+         db_ok d = true ->
+         forall (y : Synset) (i : str) (args : list str) (pairs : list (Relation * Synset))
+           (r : Relation) (t : Synset),
+         ss_ili y = Some i ->
+         i <> [] ->
+         wn_expanded_ids (ss_wordnet y) <> [] ->
+         Synset_iter_expanded_relations d y args = Ok pairs ->
+         In (r, t) pairs <-> expanded_relation_row d y i args r t.
+Proof. exact (@Synset_iter_expanded_relations_iff). Qed.
+Print Assumptions C12_Synset_iter_expanded_relations_iff.
+
+(* ---- the targets stay inside the scope or are placeholders (shared with C04) *)
+Theorem C12_Synset_iter_expanded_relations_scope :
+  forall (d : db) (y : Synset) (args : list str) (pairs : list (Relation * Synset))
+           (r : Relation) (t : Synset),
+         Synset_iter_expanded_relations d y args = Ok pairs ->
+         In (r, t) pairs -> expanded_target_ok d y t.
+Proof. exact (@Synset_iter_expanded_relations_scope). Qed.
+Print Assumptions C12_Synset_iter_expanded_relations_scope.
+
+Theorem C12_get_synsets_for_ilis_iff :
+  forall (d : db) (ilis : list str) (ids : list Z) (q : q_synset),
+         In q (get_synsets_for_ilis d ilis ids) <->
+         (exists (ss : synset_row) (ili : ili_row),
+            In ss (t_synsets d) /\
+            In ili (t_ilis d) /\
+            In (il_id ili) ilis /\
+            sy_ili_rowid ss = Some (il_rowid ili) /\
+            In (sy_lexicon_rowid ss) ids /\
+            q =
+            {|
+              qy_id := sy_id ss;
+              qy_pos := sy_pos ss;
+              qy_ili := Some (il_id ili);
+              qy_lexid := sy_lexicon_rowid ss;
+              qy_rowid := sy_rowid ss
+            |}).
+Proof. exact (@get_synsets_for_ilis_iff). Qed.
+Print Assumptions C12_get_synsets_for_ilis_iff.
+
+(* ---- non-vacuity *)
+Theorem C12_db_ok_sample_2 :
+  db_ok sample_db_2 = true.
+Proof. exact (@db_ok_sample_2). Qed.
+Print Assumptions C12_db_ok_sample_2.
+
+Theorem C12_run_core_agrees_on_fuel_case :
+  sx_agree_default (run_core core_fuel_900000_0.input_0) core_fuel_900000_0.expected_0 = true.
+Proof. exact (@run_core_agrees_on_fuel_case). Qed.
+Print Assumptions C12_run_core_agrees_on_fuel_case.
+
